@@ -28,7 +28,8 @@ RULE = ("(a) rule-based state machine (Hypothesis) on a scratch settings file: s
         "the typed options of the evo_ape/evo_rpe/evo_traj parsers: merge_config(parse(base + -c generate(L))) == parse(base + L) "
         "attribute by attribute with int-typed options int, -c priority, SETTINGS override in memory only, and evo_ape with the "
         "generated config writes the same archive as with the arguments. Non-trivial = (a) >= 2 edits touching >= 2 keys incl. a "
-        "bool or list key, (b) a list with an int-typed, negative or multi-value option; distinct by SHA-1")
+        "bool or list key, (b) a list with an int-typed, negative or multi-value option; distinct by SHA-1"
+        ' Round-3 additions: reset through evo_config (with/without -y, with parameters), upgrades from a version differing only in the patch or minor component.')
 ASSUMPTIONS = ["tokens nan/inf/1e400 make set_config raise before writing: a refused edit (file must be byte-identical)",
                "string option values in (b) do not look like numbers or flags (the documented form of evo_config generate)"]
 KEYS = list(DEFAULT_SETTINGS_DICT.keys())
